@@ -96,7 +96,20 @@ const poolUses = 256
 func newPool() *pool { return &pool{rts: map[string]*rt{}} }
 
 // execute runs src under one configuration, in a fresh runtime when p is nil.
-func execute(p *pool, src, cfg string) (o obs) {
+// hostCall is one entry from the host through LEnv.FunCall after the source
+// has been loaded (sequence family, starter host-funcall).
+type hostCall struct {
+	Fn   string
+	Args []int
+}
+
+// runOpts are the per-program runtime settings.
+type runOpts struct {
+	Limit int // Stack.MaxTailIterations for this run (0: the default)
+	Host  []hostCall
+}
+
+func execute(p *pool, src string, ro runOpts, cfg string) (o obs) {
 	var x *rt
 	if p != nil {
 		x = p.rts[cfg]
@@ -113,7 +126,11 @@ func execute(p *pool, src, cfg string) (o obs) {
 		*x.prof = countingProfiler{}
 	}
 	env := x.env
+	if ro.Limit > 0 {
+		env.Runtime.Stack.MaxTailIterations = ro.Limit
+	}
 	defer func() {
+		env.Runtime.Stack.MaxTailIterations = lisp.DefaultMaxTailIterations
 		if r := recover(); r != nil {
 			o.GoPanic = fmt.Sprint(r)
 			o.Out = el.Outcome{IsErr: true, Cond: "<go-panic-escaped>", Text: o.GoPanic, Out: env.Err.String()}
@@ -126,8 +143,34 @@ func execute(p *pool, src, cfg string) (o obs) {
 			delete(p.rts, cfg)
 		}
 	}()
+	// host entries: each is a separate FunCall on the same runtime
+	host := func(call func(fn, args *lisp.LVal) *lisp.LVal) {
+		if o.Out.IsErr || len(ro.Host) == 0 {
+			return
+		}
+		var vals []string
+		for _, h := range ro.Host {
+			fn := env.Get(lisp.Symbol(h.Fn))
+			if fn.Type == lisp.LError {
+				o.Out = el.Observe(fn, env.Err.String())
+				return
+			}
+			args := make([]*lisp.LVal, len(h.Args))
+			for i, a := range h.Args {
+				args[i] = lisp.Int(a)
+			}
+			v := call(fn, lisp.SExpr(args))
+			if v == nil || v.Type == lisp.LError {
+				o.Out = el.Observe(v, env.Err.String())
+				return
+			}
+			vals = append(vals, v.String())
+		}
+		o.Out = el.Outcome{Text: "[" + strings.Join(vals, " ") + "]", Out: env.Err.String()}
+	}
 	if cfg == cfgPlain {
 		o.Out = env.Load(src)
+		host(func(fn, args *lisp.LVal) *lisp.LVal { return env.FunCall(fn, args) })
 		return o
 	}
 	ctx := el.NewStepCtx()
@@ -143,6 +186,7 @@ func execute(p *pool, src, cfg string) (o obs) {
 		}
 	}
 	o.Out = env.LoadCtx(ctx, src)
+	host(func(fn, args *lisp.LVal) *lisp.LVal { return env.FunCallContext(ctx, fn, args) })
 	o.Steps = ctx.N
 	o.Capped = ctx.N >= stepCap
 	return o
@@ -211,7 +255,7 @@ func Describe(c Case) string {
 	var b strings.Builder
 	src := Source(c)
 	for _, cfg := range allConfigs {
-		o := execute(nil, src, cfg)
+		o := execute(nil, src, optsOf(c), cfg)
 		depth := -1
 		fr := ""
 		if len(o.Probes) > 0 {
@@ -221,7 +265,7 @@ func Describe(c Case) string {
 				fr = fr[:300] + "…"
 			}
 		}
-		fmt.Fprintf(&b, "N=%d %-26s %s max_height=%d base_depth=%d steps=%d\n    base frames: %s\n", c.N, cfg, o.Out.String(), o.MaxHeight, depth, o.Steps, fr)
+		fmt.Fprintf(&b, "N=%d limit=%d %-26s %s max_height=%d base_depth=%d steps=%d\n    base frames: %s\n", c.N, c.Limit, cfg, o.Out.String(), o.MaxHeight, depth, o.Steps, fr)
 	}
 	fs, _ := checkProgram(nil, c, allConfigs)
 	for _, f := range fs {
